@@ -57,6 +57,7 @@ type FuncContract struct {
 	Line      int
 	Panics    []Clause // "panics when"
 	MayPanic  bool
+	SplitPaths bool // postconditions are checked per incoming path of the return block (one obligation each)
 	Terminate bool
 	Reach     bool // require reachability canary
 	Params    []string
@@ -123,7 +124,7 @@ var keywords = map[string]bool{
 	"func": true, "trusted": true, "props": true, "mode": true, "requires": true, "ensures": true,
 	"modifies": true, "loop": true, "at-call": true, "at-store": true, "inline": true, "pure": true,
 	"spec": true, "axiom": true, "guarded_by": true, "monitor": true, "census": true, "panics": true,
-	"why:": true, "regexlang": true, "recovers": true, "closure-only": true, "params": true, "ghostfield": true, "ufn": true, "checks": true, "nobody": true, "ghost": true, "maypanic": true, "reach": true,
+	"why:": true, "regexlang": true, "recovers": true, "closure-only": true, "params": true, "ghostfield": true, "ufn": true, "checks": true, "nobody": true, "ghost": true, "maypanic": true, "splitpaths": true, "reach": true,
 }
 
 type rawLine struct {
@@ -218,6 +219,8 @@ func ParseFile(filename, pkg, src string) (*File, error) {
 			cur.NoBody = true
 		case "maypanic":
 			cur.MayPanic = true
+		case "splitpaths":
+			cur.SplitPaths = true
 		case "reach":
 			cur.Reach = true
 		case "why:":
